@@ -104,7 +104,7 @@ func main() {
 				os.Exit(2)
 			}
 		}
-		nSend, nRead, nExp, nSess, nBc, nBs := 2500, 2500, 4000, 2500, 1500, 1800
+		nSend, nRead, nExp, nSess, nBc, nBs := 2000, 2000, 3500, 2200, 1400, 1600
 		if o.Thorough() {
 			nSend, nRead, nExp, nSess, nBc, nBs = 12000, 10000, 20000, 12000, 7000, 8000
 		}
